@@ -98,6 +98,15 @@ class Closure:
     name: str = "<lambda>"
 
 
+class GenList(list):
+    """The values of a generator (expression or function), computed eagerly; next() consumes from the front."""
+
+    def __next__(self):
+        if self:
+            return self.pop(0)
+        raise StopIteration
+
+
 @dataclass
 class Bound:
     func: Any
@@ -117,8 +126,18 @@ class State:
     def clone(self) -> "State":
         st = State()
         memo: dict[Any, Any] = {"__origs__": []}
-        st.env = {k: _clone(v, memo) for k, v in self.env.items()}
-        st.frames = [{k: _clone(v, memo) for k, v in fr.items()} for fr in self.frames]
+        def clone_env(d: dict) -> dict:
+            # the environment dicts themselves are registered: a Closure refers to its defining environment by reference and finds
+            # this state's copy of it through the forwarding map (State.tr)
+            new: dict[str, Any] = {}
+            memo[id(d)] = new
+            memo["__origs__"].append(d)
+            for k, v in d.items():
+                new[k] = _clone(v, memo)
+            return new
+
+        st.env = clone_env(self.env)
+        st.frames = [clone_env(fr) for fr in self.frames]
         st.pc = list(self.pc)
         st.trace = list(self.trace)
         st.ghost = {k: _clone(v, memo) for k, v in self.ghost.items()}
@@ -149,7 +168,7 @@ def _clone(v, memo):
             return memo[id(v)]
         memo.setdefault("__origs__", []).append(v)
         if isinstance(v, list):
-            out: Any = []
+            out: Any = type(v)() if type(v) is GenList else []
             memo[id(v)] = out
             out.extend(_clone(x, memo) for x in v)
         elif isinstance(v, dict):
@@ -370,8 +389,12 @@ class Executor:
 
     def call_function(self, func, st: State, args: list, kwargs: dict) -> Iterator[tuple[State, str, Any]]:
         """Interpret a real function (or a Closure). Yields (state, 'return'|'raise', value)."""
+        nonlocals: list[str] = []
         if isinstance(func, Closure):
-            node, glob, qual, cenv = func.node, func.glob, func.name, func.env
+            # the defining environment as THIS state has it (the closure object is shared between forked states)
+            node, glob, qual, cenv = func.node, func.glob, func.name, st.tr(func.env)
+            if not isinstance(node, ast.Lambda):
+                nonlocals = [nm for s_ in node.body for x in ast.walk(s_) if isinstance(x, ast.Nonlocal) for nm in x.names]
         else:
             node, glob, qual = self.source_of(func)
             cenv = {}
@@ -404,11 +427,17 @@ class Executor:
             if is_generator:
                 st.ghost.setdefault("__yield__", []).append([])
             for st2, kind, val in self.block(node.body, st, frame):
+                callee_env = st2.env
                 st2.env = st2.frames.pop()
+                if nonlocals:
+                    outer = st2.tr(func.env)
+                    for nm in nonlocals:  # `nonlocal x`: the callee's binding IS the defining function's variable
+                        if nm in callee_env:
+                            outer[nm] = callee_env[nm]
                 if is_generator:
                     items = st2.ghost["__yield__"].pop()
                     if kind in {"next", "return"}:
-                        yield st2, "return", list(items)  # the generator, fully consumed, as the list of what it yields
+                        yield st2, "return", GenList(items)  # the generator, fully consumed, as the list of what it yields
                         continue
                 if kind == "next":
                     yield st2, "return", None
@@ -666,10 +695,7 @@ class Executor:
                     cont = st3.tr(cont)  # the key expression may have forked
                     v = st3.tr(v)
                     if isinstance(cont, dict):
-                        if is_sym(key):
-                            raise Unsupported("symbolic key into a concrete dict")
-                        cont[_hashable(key)] = v
-                        yield st3
+                        yield from self.dict_put(st3, cont, key, v)
                     elif isinstance(cont, list) and isinstance(key, int):
                         cont[key] = v
                         yield st3
@@ -896,7 +922,7 @@ class Executor:
             enter = self.lookup_native_method(cm, "__enter__")
             exit_ = self.lookup_native_method(cm, "__exit__")
             if enter is None or exit_ is None:
-                raise Unsupported(f"with on {type(cm).__name__} without a contract")
+                raise Unsupported(f"with on {cm.cls_name if isinstance(cm, Rec) else type(cm).__name__} without a contract")
             for st3, v in enter(self, st2, [cm], {}):
                 if item.optional_vars is not None:
                     sts = list(self._assign(item.optional_vars, v, st3, frame))
@@ -993,7 +1019,10 @@ class Executor:
         if isinstance(n, ast.Dict):
             for st2, ks in self.ev_list(n.keys, st, frame):
                 for st3, vs in self.ev_list(n.values, st2, frame):
-                    yield st3, {_hashable(k): v for k, v in zip(ks, vs)}
+                    if isinstance(ks, Exc) or isinstance(vs, Exc):
+                        yield st3, (ks if isinstance(ks, Exc) else vs)
+                        continue
+                    yield from self.dict_from_pairs(st3, list(zip(ks, vs)))
             return
         if isinstance(n, ast.BinOp):
             for st2, a in self.ev(n.left, st, frame):
@@ -1066,7 +1095,10 @@ class Executor:
         if isinstance(n, (ast.ListComp, ast.GeneratorExp, ast.SetComp)):
             for st2, vals in self._comp(n.generators, 0, lambda s: self.ev(n.elt, s, frame), st, frame):
                 if isinstance(n, ast.SetComp):
-                    yield st2, set(_hashable(x) for x in vals)
+                    for st3, d_ in self.dict_from_pairs(st2, [(x, None) for x in vals]):
+                        yield st3, set(d_)
+                elif isinstance(n, ast.GeneratorExp):
+                    yield st2, GenList(vals)
                 else:
                     yield st2, list(vals)
             return
@@ -1077,7 +1109,7 @@ class Executor:
                         yield s3, (k, v)
 
             for st2, pairs in self._comp(n.generators, 0, kv, st, frame):
-                yield st2, {_hashable(k): v for k, v in pairs}
+                yield from self.dict_from_pairs(st2, list(pairs))
             return
         if isinstance(n, ast.Lambda):
             yield st, Closure(n, st.env, frame[0], "<lambda>")
@@ -1287,6 +1319,80 @@ class Executor:
     def _not(self, r):
         return SV(z3.Not(r.t), "bool") if isinstance(r, SV) else (not r)
 
+    def dict_put(self, st: State, cont: dict, k, v, skip: int = 0) -> Iterator[State]:
+        """cont[k] = v for a dict that lives IN the state (reachable from its environment), k possibly symbolic: forks on every feasible
+        coincidence of k with an existing key (see dict_from_pairs); after a fork the other path's copy of the dict is st.tr(cont)."""
+        cont, k, v = st.tr(cont), st.tr(k), st.tr(v)
+        hk = _hashable(k)
+        if hk in cont:
+            cont[hk] = v
+            yield st
+            return
+        keys = list(cont)
+        for pos in range(skip, len(keys)):
+            e = keys[pos]
+            ek = _unhash(e)
+            if not (isinstance(k, SV) or isinstance(ek, SV)) or isinstance(k, Rec) or isinstance(ek, Rec):
+                continue
+            outs = list(self.truth(st, self.equal(ek, k)))
+            if not outs:
+                return  # the path condition is unsatisfiable: a dead path
+            if len(outs) == 1:
+                st, same = outs[0]
+                cont, v = st.tr(cont), st.tr(v)
+                if same:
+                    cont[e] = v
+                    yield st
+                    return
+                continue
+            (st_t, _), (st_f, _) = (outs[0], outs[1]) if outs[0][1] else (outs[1], outs[0])
+            st_t.tr(cont)[e] = st_t.tr(v)
+            yield st_t
+            yield from self.dict_put(st_f, st_f.tr(cont), k, st_f.tr(v), pos + 1)
+            return
+        cont[hk] = v
+        yield st
+
+    def dict_from_pairs(self, st: State, pairs: list, i: int = 0, acc: dict | None = None) -> Iterator[tuple[State, dict]]:
+        """The dict that inserting `pairs` in order builds, when keys may be SYMBOLIC scalars/objects: two different key terms may be
+        EQUAL values, in which case the later pair overwrites the earlier one's value (and keeps its position). Forks on every
+        feasible coincidence between a symbolic key and an existing key (records as keys stay identity-keyed). The dict under
+        construction belongs to the caller, so it is copied on each fork."""
+        acc = {} if acc is None else acc
+        while i < len(pairs):
+            k, v = pairs[i]
+            k, v = st.tr(k), st.tr(v)
+            hk = _hashable(k)
+            if hk in acc:
+                acc[hk] = v
+                i += 1
+                continue
+            merged = False
+            for e in list(acc):
+                ek = _unhash(e)
+                if not (isinstance(k, SV) or isinstance(ek, SV)) or isinstance(k, Rec) or isinstance(ek, Rec):
+                    continue  # two concrete keys are decided by their hash/eq above; records are identity-keyed
+                outs = list(self.truth(st, self.equal(ek, k)))
+                if not outs:
+                    return  # the path condition is unsatisfiable: a dead path
+                if len(outs) == 1:
+                    st, same = outs[0]
+                    if same:
+                        acc[e] = v
+                        merged = True
+                        break
+                    continue
+                (st_t, _), (st_f, _) = (outs[0], outs[1]) if outs[0][1] else (outs[1], outs[0])
+                acc_t = {kk: st_t.tr(vv) for kk, vv in acc.items()}
+                acc_t[e] = st_t.tr(v)
+                yield from self.dict_from_pairs(st_t, pairs, i + 1, acc_t)
+                acc = {kk: st_f.tr(vv) for kk, vv in acc.items()}
+                st, v = st_f, st_f.tr(v)
+            if not merged:
+                acc[hk] = v
+            i += 1
+        yield st, acc
+
     def equal(self, a, b):
         """Python == on possibly symbolic values -> SV bool or bool."""
         if isinstance(a, SV) and a.sort == "obj" or isinstance(b, SV) and b.sort == "obj":
@@ -1327,19 +1433,15 @@ class Executor:
             self.fresh_n += 1
             yield st, SV(z3.Exists([i], z3.And(i >= 0, i < cont.length, z3.Select(cont.elem, i) == to_z3(item, cont.elem_sort))), "bool")
             return
-        if isinstance(cont, dict):
-            if is_sym(item):
-                ors = [self.equal(_unhash(k), item) for k in cont]
-                yield st, SV(z3.Or(*[self.as_bool(o) for o in ors]) if ors else z3.BoolVal(False), "bool")
-            else:
-                yield st, _hashable(item) in cont
-            return
-        if isinstance(cont, (list, tuple, set, frozenset)):
-            if is_sym(item) or any(is_sym(x) for x in cont):
-                ors = [self.as_bool(self.equal(x, item)) for x in cont]
+        if isinstance(cont, (dict, list, tuple, set, frozenset)):
+            members = [_unhash(x) for x in cont]  # keys / elements may be wrapped symbolic values
+            if _hashable(item) in cont if isinstance(cont, (dict, set, frozenset)) else False:
+                yield st, True  # the very same term
+            elif is_sym(item) or any(is_sym(x) for x in members):
+                ors = [self.as_bool(self.equal(x, item)) for x in members if not (isinstance(x, Rec) or isinstance(item, Rec)) or x is item]
                 yield st, SV(z3.Or(*ors) if ors else z3.BoolVal(False), "bool")
             else:
-                yield st, (_hashable(item) in cont if isinstance(cont, (set, frozenset)) else item in cont)
+                yield st, (_hashable(item) in cont if isinstance(cont, (dict, set, frozenset)) else item in cont)
             return
         if isinstance(cont, str) and isinstance(item, str):
             yield st, item in cont
@@ -1446,13 +1548,29 @@ class Executor:
             yield st, SV(z3.Select(o.elem, idx), o.elem_sort)
             return
         if isinstance(o, dict):
-            if is_sym(k):
-                raise Unsupported("symbolic key into a concrete dict")
             hk = _hashable(k)
-            if hk not in o:
-                yield st, Exc("KeyError", (k,))
-            else:
+            if hk in o:
                 yield st, o[hk]
+                return
+            # a symbolic key (or symbolic keys in the dict): the lookup hits the first existing key that EQUALS k
+            for e in list(o):
+                ek = _unhash(e)
+                if not (isinstance(k, SV) or isinstance(ek, SV)) or isinstance(k, Rec) or isinstance(ek, Rec):
+                    continue
+                outs = list(self.truth(st, self.equal(ek, k)))
+                if not outs:
+                    return  # the path condition is unsatisfiable: a dead path
+                if len(outs) == 1:
+                    st, same = outs[0]
+                    o = st.tr(o)
+                    if same:
+                        yield st, o[e]
+                        return
+                    continue
+                (st_t, _), (st_f, _) = (outs[0], outs[1]) if outs[0][1] else (outs[1], outs[0])
+                yield st_t, st_t.tr(o)[e]
+                st, o = st_f, st_f.tr(o)
+            yield st, Exc("KeyError", (k,))
             return
         if isinstance(o, (list, tuple, str)):
             if is_sym(k):
@@ -1640,6 +1758,27 @@ class Executor:
             for st2, kind, val in self.call_function(target, st, args, kwargs):
                 yield st2, val
             return
+        owner_ = getattr(f, "__self__", None)
+        if isinstance(owner_, dict) and not isinstance(f, Bound) and (any(isinstance(x, _HK) and is_sym(x.v) for x in owner_) or any(is_sym(a) for a in args[:1])):
+            # a key-based method of a concrete dict where the key or some existing keys are symbolic: equality of keys decides, not identity
+            mname_ = getattr(f, "__name__", "")
+            if mname_ == "get" and 1 <= len(args) <= 2 and not kwargs:
+                default = args[1] if len(args) == 2 else None
+                for st2, val in self.getitem(owner_, args[0], st):
+                    yield st2, (default if isinstance(val, Exc) and val.type_name == "KeyError" else val)
+                return
+            if mname_ == "__getitem__" and len(args) == 1:
+                yield from self.getitem(owner_, args[0], st)
+                return
+            if mname_ == "__contains__" and len(args) == 1:
+                yield from self.contains(owner_, args[0], st)
+                return
+            if mname_ == "__setitem__" and len(args) == 2:
+                for st2 in self.dict_put(st, owner_, args[0], args[1]):
+                    yield st2, None
+                return
+            if mname_ in {"pop", "setdefault", "__delitem__", "update", "popitem"}:
+                raise Unsupported(f"dict.{mname_} on a dict whose keys may coincide symbolically")
         concrete = not any(_has_sym(a) for a in args) and not any(_has_sym(v) for v in kwargs.values())
         if concrete and callable(f) and self.allowed_real_calls:
             try:
@@ -1665,13 +1804,13 @@ class Executor:
         def _numeric(x):
             return (isinstance(x, SV) and x.sort in {"int", "real"}) or (isinstance(x, (int, float)) and not isinstance(x, bool))
 
-        if f is builtins.sorted and len(args) == 1 and set(kwargs) <= {"key", "reverse"} and isinstance(args[0], (list, tuple, dict, set, frozenset)) \
+        if f is builtins.sorted and len(args) == 1 and set(kwargs) <= {"key", "reverse"} and isinstance(args[0], (list, tuple, dict, set, frozenset, type({}.keys()), type({}.items()), type({}.values()))) \
                 and not _has_sym(kwargs.get("reverse", False)):
             # sorted() of a concrete collection of concrete elements (e.g. the keys of a dict whose VALUES are symbolic), with a key
             # function whose results are concrete: the real sort
             items = self.concrete_seq(args[0], st)
-            if not any(_has_sym(x) for x in items):
-                keyf = kwargs.get("key")
+            keyf = kwargs.get("key")
+            if keyf is not None or not any(_has_sym(x) for x in items):
                 keys: list | None = list(items)
                 if keyf is not None:
                     keys = []
@@ -1702,6 +1841,16 @@ class Executor:
                 for t in terms[1:]:
                     acc_t = z3.If(t < acc_t, t, acc_t) if f is builtins.min else z3.If(t > acc_t, t, acc_t)
                 yield st, SV(acc_t, want)
+                return
+        import math as _math
+
+        if f is _math.prod and 1 <= len(args) <= 1 and set(kwargs) <= {"start"} and isinstance(args[0], (list, tuple)):
+            items = self.concrete_seq(args[0], st)
+            if all(_numeric(x) for x in items) and any(isinstance(x, SV) for x in items) and _numeric(kwargs.get("start", 1)):
+                total = kwargs.get("start", 1)
+                for x in items:
+                    total = self.binop(ast.Mult(), total, x, st)
+                yield st, total
                 return
         if f is builtins.sum and not kwargs and 1 <= len(args) <= 2 and isinstance(args[0], (list, tuple)):
             items = self.concrete_seq(args[0], st)
@@ -1756,6 +1905,20 @@ class Executor:
         if f is builtins.zip:
             seqs = [self.concrete_seq(a, st) for a in args]
             yield st, list(zip(*seqs))
+            return
+        if f is builtins.reversed and len(args) == 1 and isinstance(args[0], (list, tuple)):
+            yield st, GenList(reversed(list(args[0])))
+            return
+        if f is builtins.next and 1 <= len(args) <= 2 and not kwargs and isinstance(args[0], GenList):
+            if args[0]:
+                yield st, args[0].pop(0)
+            elif len(args) == 2:
+                yield st, args[1]
+            else:
+                yield st, Exc("StopIteration", ())
+            return
+        if f is builtins.iter and len(args) == 1 and isinstance(args[0], (list, tuple)):
+            yield st, GenList(args[0])
             return
         if f is builtins.enumerate:
             yield st, list(enumerate(self.concrete_seq(args[0], st), *args[1:]))
@@ -1830,6 +1993,7 @@ class Executor:
         # function would silently drop the mutation. Not modelled -> outside the subset.
         owner = getattr(f, "__self__", None)
         mname = getattr(f, "__name__", "")
+
         if isinstance(owner, (list, set)) and not kwargs:
             # exact models of the common in-place methods on CONCRETE containers whose new elements are symbolic (identity-keyed
             # wrappers in sets, as a set comprehension builds them)
@@ -1971,8 +2135,10 @@ ABSTRACTED_PACKAGE_CALLS: set[str] = set()  # process-wide: package functions so
 
 
 def _has_sym(v, depth=0) -> bool:
-    if is_sym(v) or isinstance(v, (Rec, Closure, Bound)):
+    if is_sym(v) or isinstance(v, (Rec, Closure, Bound, _HK)):
         return True
+    if isinstance(v, (type({}.keys()), type({}.items()), type({}.values()))):
+        return any(_has_sym(x, depth + 1) for x in v)
     if depth > 4:
         return False
     if isinstance(v, (list, tuple, set, frozenset)):
